@@ -11,6 +11,23 @@ COMMON_NOTE = ("Trusted base: Coq 8.16.1 kernel + vm_compute (no native_compute,
                "modelled, not verified. ")
 
 CLAIMED = {
+ "C14": dict(
+  text="(A) All 306 rule strings and the Hall map are REGENERATED from soprano/data/xrd_sel_rules.json / hall_2_no.json into Gallina on every run; the "
+       "specification 'not systematically absent under the setting's symmetry operations' (h R = h and h.t non-integer for some operation; operations "
+       "from a frozen copy of spglib's database compared with the live library each run) is evaluated by vm_compute over ALL hkl of [-6,6]^3 - the "
+       "property's own finite quantifier - and lifted to a forall statement: 232 settings are proved to agree exactly; for the other 74 (known findings "
+       "C14-hall<N>) it is proved that every disagreement is one of the recorded ones, so any further wrong reflection breaks a theorem; the Hall map "
+       "agrees with the database. (B) axiom-free theorem about a hand model of powder_peaks for ANY positive-definite reciprocal metric, wavelength and "
+       "rule and for every hkl of Z^3 (hkl box from the C03 completeness theorem): listed under spacing q iff rule, 0<1/d<2/lambda and 1/d^2 = q; one "
+       "non-empty group per spacing in ascending order. Over the reals: hkl2d2_matgen is the inverse of the direct metric and abc2cart's rows have that "
+       "metric (field). Tied to the code by: truth table of soprano's eval == generated rule on the whole box for all settings; powder_peaks and "
+       "hkl2d2_matgen == models in exact rational arithmetic on 7 lattice families; numeric oracles for 1/d, 2theta, cart2abc(abc2cart).",
+  note="arcsin, the rounding of 2theta to 1e-6 deg and cart2abc's arctan2 are not modelled (numeric oracle); lattices whose distinct spacings are "
+       "closer than 4e-6 deg in 2theta are excluded from the exact comparison. 74 of the 306 tabulated rules disagree with their setting's operations "
+       "(symmetry-equivalent zonal/serial conditions missing): recorded as known findings keyed on the exact disagreement set; rewriting a quarter of "
+       "the data table is not a small repair.",
+  technique="Coq proof: vm_compute over the property's finite quantifier lifted by forallb_forall, on rules regenerated from the JSON (py2v) + axiom-free Z proof of a hand model + Reals (field) + exact correspondence",
+  design="§8 C14"),
  "C17": dict(
   text="Axiom-free theorems about a hand model of RemapIndices.extract and merge_sites (coq/model/Remap.v). Remap: species are arbitrary ids compared by "
        "equality; if every per-species assignment returned by the linear-sum-assignment oracle is a permutation of its group (contract checked on every "
